@@ -354,6 +354,77 @@ def inject_interp(rng, doc):
     return doc2
 
 
+def nested_encode_doc(rng):
+    """an `$encode` subtree that itself contains an `$encode` subtree (map form, `$value` form, list form), the inner one
+    sometimes holding an unresolved marker or a stray directive: what the inner transform turns into a string can no longer
+    be seen by any later validation"""
+    mark = rng.choice(["$required", "$required", "$delete", "$nosuch", "$match", "v", 1, "$$x"])
+    inner_spec = rng.choice(["flags", "json", "base64", "tolist:=", "values", "join:,", "yaml", ["tolist:=", "join:,"]])
+    outer_spec = rng.choice(["json", "flatten", "yaml", "values", "tolist:=", "base64", "join: ", ["json", "base64"]])
+    r = rng.random()
+    if r < 0.35:
+        inner = {"image": mark, "n": 1, "$encode": inner_spec}
+    elif r < 0.6:
+        inner = {"$encode": inner_spec, "$value": rng.choice([mark, {"k": mark}, [mark, "w"]])}
+    elif r < 0.8:
+        inner = [mark, "w", {"$encode": inner_spec}] if isinstance(inner_spec, str) and inner_spec.startswith(("join", "base64", "json", "yaml")) else [{"k": mark}, {"$encode": inner_spec}]
+    else:
+        inner = {"k": {"deep": mark}, "$encode": inner_spec}
+    q = rng.random()
+    if q < 0.4:
+        outer = {"x": inner, "y": rng.choice([1, "s"]), "$encode": outer_spec}
+    elif q < 0.7:
+        outer = [inner, {"$encode": outer_spec}]
+    else:
+        outer = {"$encode": outer_spec, "$value": rng.choice([inner, [inner], {"p": inner}])}
+    doc = {rng.choice(KEYS): outer, "other": rng.choice([1, "s", mark if rng.random() < 0.1 else 2])}
+    if rng.random() < 0.2:
+        doc = {"wrap": doc, "$output": rng.choice([True, False])} if rng.random() < 0.5 else {"l": [doc]}
+    return doc
+
+
+def nested_repeat_same_template(rng):
+    """two levels of `$repeat` whose bodies use the SAME template text: the inner copies must be bound to the inner index
+    (a value computed for the outer scope must not be reused)"""
+    tmpl = rng.choice(["$\"i{$repeat}\"", "$\"{$repeat}\"", "$\"n-{$repeat}-x\"", "$repeat"])
+    n_in = rng.choice([2, 3])
+    inner_map = {"$repeat": n_in, "v": tmpl, "w": rng.choice([1, tmpl])}
+    r = rng.random()
+    if r < 0.4:
+        # document-level outer repeat; the outer use sorts before the key holding the nested repeat
+        doc = {"$repeat": rng.choice([1, 2, 3]), "a": tmpl, "z": [inner_map] if rng.random() < 0.6 else {"$\"k{$repeat}\"": inner_map}}
+    elif r < 0.7:
+        doc = {"items": [{"$repeat": rng.choice([2, 3]), "a": tmpl, "sub": [inner_map]}]}
+    else:
+        doc = {"m": {"$\"o{$repeat}\"": {"$repeat": 2, "a": tmpl, "z": [inner_map]}}}
+    if rng.random() < 0.3:
+        doc["zz"] = tmpl if "$repeat" in doc else 1
+    return doc
+
+
+def lookalike_encodes(rng):
+    """several `$encode`s of ONE format in one document over values that print alike but are different values
+    (1 / "1" / 1.0, true / "true", ["p q", "r"] / ["p", "q r"]): each must get its own encoding"""
+    fmt = rng.choice(["json", "json", "json-pretty", "base64", "join:,", "sha256", "yaml", "toml"])
+    groups = [[1, "1", 1.0], [True, "true"], [["p q", "r"], ["p", "q r"]], [None, "<nil>", "null"], [[1, 2], ["1", "2"], ["1 2"]],
+              [{"x": 1}, {"x": "1"}, {"x": 1.0}], [0.5, "0.5"], ["", [], {}]]
+    g = rng.choice(groups)
+    vals = rng.sample(g, min(len(g), rng.randint(2, 3)))
+    doc = {}
+    for i, v in enumerate(vals):
+        val = v
+        if fmt == "toml" and not isinstance(v, dict):
+            val = {"x": v}
+        if fmt.startswith("join") and not isinstance(v, list):
+            val = [v, "t"]
+        doc["e%d" % i] = {"$encode": fmt, "$value": val}
+    if rng.random() < 0.3:
+        doc = {"l": [doc[k] for k in sorted(doc)]}
+    if rng.random() < 0.3:
+        doc["$repeat"] = 2
+    return doc
+
+
 FEATURES = {"ref": inject_ref, "output": inject_output, "repeat": inject_repeat, "encode": inject_encode, "interp": inject_interp}
 
 
